@@ -43,7 +43,7 @@ def _table(ctx, part, E, K, G, nsplit):
               % (", ".join(to_tla(list(x)) for x in PQS), ", ".join(to_tla(list(x)) for x in first)))
         return tlc.dump_states("MCConst", CFG % dict(E=E, K=K, G=G, part=part), files={"MCConst.tla": mc}, workers=1, timeout=3000)
 
-    with cf.ThreadPoolExecutor(max_workers=16) as ex:
+    with cf.ThreadPoolExecutor(max_workers=8) as ex:
         for res, states in ex.map(one, parts):
             ctx.add_tlc(res, "ConstTable/%s/K=%d/E=%d" % (part, K, E))
             if res.violated or not res.ok:
